@@ -63,6 +63,21 @@ func NewStats() *Stats {
 	return &Stats{Outcomes: map[string]int64{}, StatusCount: map[string]int64{}, Exhaustive: true}
 }
 
+// addViolation keeps one representative per fingerprint (all messages, digits dropped), so that a rare kind
+// of failure is never crowded out by a frequent one. Returns true if v was added.
+func (s *Stats) addViolation(v Violation) bool {
+	for _, x := range s.Violations {
+		if x.Key == v.Key {
+			return false
+		}
+	}
+	if len(s.Violations) >= 300 {
+		return false
+	}
+	s.Violations = append(s.Violations, v)
+	return true
+}
+
 // Merge adds o into s.
 func (s *Stats) Merge(o *Stats) {
 	s.Executions += o.Executions
@@ -88,9 +103,7 @@ func (s *Stats) Merge(o *Stats) {
 	}
 	s.ViolCount += o.ViolCount
 	for _, v := range o.Violations {
-		if len(s.Violations) < 20 {
-			s.Violations = append(s.Violations, v)
-		}
+		s.addViolation(v)
 	}
 	for _, v := range o.Samples {
 		if len(s.Samples) < 6 {
@@ -174,10 +187,10 @@ func (e *Explorer) account(r *Result, choices []int, owned bool) {
 	}
 	if msgs := e.Check(r); len(msgs) > 0 {
 		st.ViolCount++
-		if len(st.Violations) < 20 {
-			v := Violation{Scenario: e.Sc.Name, Choices: append([]int{}, choices...), Messages: msgs, Status: r.Status.String(), Crash: r.Crash, Blocked: r.Blocked, Log: r.Log}
-			v.Key = Fingerprint(&v)
-			st.Violations = append(st.Violations, v)
+		v := Violation{Scenario: e.Sc.Name, Choices: append([]int{}, choices...), Messages: msgs, Status: r.Status.String(), Crash: r.Crash, Blocked: r.Blocked}
+		v.Key = Fingerprint(&v)
+		if st.addViolation(v) {
+			st.Violations[len(st.Violations)-1].Log = r.Log
 		}
 	}
 }
@@ -186,9 +199,9 @@ func (e *Explorer) account(r *Result, choices []int, owned bool) {
 func Fingerprint(v *Violation) string {
 	var b strings.Builder
 	b.WriteString(v.Status)
-	if len(v.Messages) > 0 {
+	for _, m := range v.Messages {
 		b.WriteString("|")
-		b.WriteString(stripDigits(v.Messages[0]))
+		b.WriteString(stripDigits(m))
 	}
 	if v.Crash != nil {
 		b.WriteString("|")
